@@ -10,7 +10,7 @@ COQ_HEADER = "From Plotink Require Import Base.Prelude Model.Rtree Corr.C14.\nOp
 COQ_RUN = "run14"
 COQ_CASE_TYPE = "case14"
 SHARD = 150
-RULE = ("box lists of 0..60 boxes over small integer / half-integer / random rational grids with duplicates, nesting, shared edges, "
+RULE = ("1-4 earlier queries on the same index (their result sets edited by the caller) before the judged query; box lists of 0..60 boxes over small integer / half-integer / random rational grids with duplicates, nesting, shared edges, "
         "zero-width, zero-height and point boxes, symmetric pairs that put box edges on the mean centre line; queries touching at an edge "
         "or corner only, containing, contained, disjoint; each list is run on Fractions (compared with the model and brute force) and on floats "
         "(compared with brute force); non-trivial = at least 2 boxes and a non-empty brute-force answer")
@@ -95,6 +95,17 @@ def generate(rng, tier):
         bs.append((len(bs), (F(0), F(0), F(1), F(1))))
         for q in [bs[0][1], bs[-1][1], (F(-H), F(-H), F(H), F(H)), bs[1][1]]:
             cases.append({"boxes": bs, "q": q, "exact": False, "family": "float/huge"})
+    # an index is built once and queried many times: 1-4 earlier queries on the same index (whole extent, halves and quadrants of the
+    # extent, single boxes; the caller keeps and edits the sets it was given) must not change the answer to the judged query
+    for _ in range(nl):
+        bs, mode = _boxes(rng, nmax)
+        if not bs: continue
+        x0 = min(b[0] for _, b in bs); y0 = min(b[1] for _, b in bs); x1 = max(b[2] for _, b in bs); y1 = max(b[3] for _, b in bs)
+        xm = (x0 + x1) / 2; ym = (y0 + y1) / 2
+        regions = [(x0, y0, x1, y1), (x0, y0, x1, ym), (x0, ym, x1, y1), (x0, y0, xm, y1), (xm, y0, x1, y1), (x0, y0, xm, ym), (xm, ym, x1, y1), (x0, ym, xm, y1), (xm, y0, x1, ym)]
+        for q in _queries(rng, bs, mode, 2) + [rng.choice(regions)]:
+            pre = [rng.choice(regions + [b for _, b in bs[:3]]) for _ in range(rng.randint(1, 4))]
+            cases.append({"boxes": bs, "q": q, "pre": pre, "exact": rng.random() < 0.7, "family": "after-earlier-queries/mode%d" % mode})
     return cases
 
 def run_impl(c):
@@ -104,7 +115,11 @@ def run_impl(c):
     old = sys.getrecursionlimit()
     sys.setrecursionlimit(400)
     try:
-        ids = rtree.Index(bs).intersection(q)
+        idx = rtree.Index(bs)
+        for p in c.get("pre", []):
+            got = idx.intersection(tuple(conv(v) for v in p))
+            got.add(-12345); got.discard(bs[0][0])          # the returned set is the caller's to edit
+        ids = idx.intersection(q)
     finally:
         sys.setrecursionlimit(old)
     return {"ids": sorted(ids)}
